@@ -26,7 +26,7 @@ SPEC_P = dict(n_species=(1, 4), n_reactions=(0, 3), max_order=3, max_cells=9, gr
 
 
 def n_cases(tier):
-    return 900 if tier == "quick" else 24000
+    return 640 if tier == "quick" else 24000
 
 
 def timeout(tier):
@@ -37,12 +37,12 @@ def generate(seed, tier, index):
     base = Stream(ID, seed, tier, index)
     rs, ru, rk, rf = base.sub("spec"), base.sub("units"), base.sub("script"), base.sub("sched")
     kind = rs.wchoice([("gillespie", 3), ("tauleap", 2)])
-    steps = (400, 2500) if kind == "gillespie" else (150, 600)
+    steps = (400, 2500) if kind == "gillespie" else (300, 1500)
     e0 = C.make_script_entry(rs, ru, rk, kind, SPEC_P,
                              {"steps": steps, "policy": "on_iteration", "isp": rk.choice(["none", "none", "auto"]),
                               "p_seed": 1.0, "p_explicit_tmax": 1.0, "nreq": (1, 2), "courant": (0.02, 0.2)},
                              rich=rs.chance(0.3))
-    nruns = rf.randint(3, 6) if kind == "gillespie" else rf.randint(2, 4)
+    nruns = rf.randint(3, 6) if kind == "gillespie" else rf.randint(2, 5)
     scripts = []
     eps = []
     for r in range(nruns):
@@ -174,6 +174,14 @@ def analyse_tauleap(m, T, X, acc):
     n = len(T)
     ns, nc = m.ns, m.nc
     net = m.net.astype(float)
+    if not hasattr(m, "_tl_u"):
+        m._tl_u = [np.ones(ns), np.arange(1, ns + 1, dtype=float)]
+        m._tl_c = []
+        frf = m.free.astype(float)
+        for U in m._tl_u:
+            cr = (net * U[None, :]) @ frf if m.nh else np.zeros((0, nc))          # [nh, nc]
+            cd = U[:, None] * (-frf[:, m.f_i] + frf[:, m.f_j]) if len(m.faces) else np.zeros((ns, 0))
+            m._tl_c.append((cr, cd))
     for k in range(n - 1):
         x0, x1 = X[k], X[k + 1]
         if np.any(x0 < 0):
@@ -204,6 +212,42 @@ def analyse_tauleap(m, T, X, acc):
         free = m.free
         # self faces (i == j) contribute nothing; they are excluded by the generator
         dev = np.where(free, d - mean, 0.0)
+        # score statistics for a common scale error of all reaction (resp. diffusion) propensities: project the
+        # deviations on the reaction (diffusion) part of the conditional mean; the exact conditional variance of the
+        # projection follows from the independent Poisson channels
+        fr = free.astype(float)
+        rpart = dt * (net.T @ ar) * fr if m.nh else np.zeros((ns, nc))
+        dpart = np.where(free, mean, 0.0) - rpart
+        # (sign weights: every expected firing counts alike, so that pooling over cases is not dominated by the
+        #  systems with the largest molecule numbers)
+        #  the reaction weights are constant per species (sign of the species' total reaction drift), so that moves
+        #  between free entries cancel and add no noise)
+        wr = np.sign(rpart.sum(axis=1))[:, None] * fr
+        for nm, wgt in (("sc_r", wr), ("sc_d", np.sign(dpart))):
+            acc[nm + "_num"] += float((dev * wgt).sum())
+            v = 0.0
+            if m.nh:
+                proj = (net * 1.0) @ (wgt)                      # [nh, nc]: sum_s nu_hs * w_si (w already masked)
+                v += float((ar * proj ** 2).sum())
+            if len(m.faces):
+                pm = -wgt[:, m.f_i] + wgt[:, m.f_j]             # [ns, nf]
+                v += float((ad * pm ** 2).sum())
+            acc[nm + "_den"] += dt * v
+        # linear functionals L = sum_s u_s * (change of the species total over free entries): a sum of independent
+        # scaled Poisson counts, so mean, variance and fourth cumulant are exact; (L-mu)^2 - v is sensitive to a scale
+        # error of the propensities even where the drifts of opposing channels cancel
+        for ui, U in enumerate(m._tl_u):
+            cr, cd = m._tl_c[ui]
+            mu = dt * ((ar * cr).sum() + (ad * cd).sum())
+            vv = dt * ((ar * cr ** 2).sum() + (ad * cd ** 2).sum())
+            kk = dt * ((ar * cr ** 4).sum() + (ad * cd ** 4).sum())
+            L = float((U[:, None] * np.where(free, d, 0.0)).sum())
+            acc["fn_mean_num"][ui] += L - mu
+            acc["fn_mean_den"][ui] += vv
+            if vv > 0:
+                wgt = vv / (kk + 2 * vv ** 2)       # signal/variance weights for a relative scale error
+                acc["fn_var_num"][ui] += wgt * ((L - mu) ** 2 - vv)
+                acc["fn_var_den"][ui] += wgt * vv
         acc["tl_mean_num"] += dev
         acc["tl_mean_den"] += np.where(free, var, 0.0)
         acc["tl_var_num"] += np.where(free, dev ** 2 - var, 0.0)
@@ -227,6 +271,8 @@ def check(case, results):
         return viol, stats
     ne = tab.ngroups if tab else 0
     acc = {"steps": 0, "w": [], "null_steps": 0, "died": 0, "g_rd_num": 0.0, "g_rd_den": 0.0,
+           "sc_r_num": 0.0, "sc_r_den": 0.0, "sc_d_num": 0.0, "sc_d_den": 0.0,
+           "fn_mean_num": [0.0, 0.0], "fn_mean_den": [0.0, 0.0], "fn_var_num": [0.0, 0.0], "fn_var_den": [0.0, 0.0],
            "steps_from_negative_state_excluded": 0, "negative_entry_after_step": 0}
     if tab:
         acc["coarse_num"] = np.zeros(tab.coarse.max() + 1)
@@ -311,7 +357,31 @@ def check(case, results):
                                      detail="entry (species %d, cell %d): sum of (increment - dt*sum(nu*a))%s over %d steps is %.1f, "
                                             "z=%.1f" % (s, i, "" if name == "tl_mean" else "^2 - variance", N, num[s, i], z[s, i])))
                     break
-            stats["g"] = {"tl_num": float(acc["tl_mean_num"].sum()), "tl_den": float(acc["tl_mean_den"].sum())}
+            for nm, what in (("sc_r", "reaction"), ("sc_d", "diffusion")):
+                if acc[nm + "_den"] > 25.0:
+                    z = acc[nm + "_num"] / math.sqrt(acc[nm + "_den"])
+                    stats["max_abs_z_tauleap_score"] = max(stats.get("max_abs_z_tauleap_score", 0.0), abs(z))
+                    if abs(z) > ZMAX and not viol:
+                        viol.append(dict(ctx, oracle="C07.tauleap-%s-scale" % what,
+                                         detail="score statistic for a common scale error of the %s propensities: z=%.1f over %d "
+                                                "steps (firing counts are not Poisson with mean propensity x time step)" % (what, z, N)))
+            for ui in range(2):
+                if acc["fn_mean_den"][ui] > 100.0 and not viol:
+                    zm = acc["fn_mean_num"][ui] / math.sqrt(acc["fn_mean_den"][ui])
+                    zv = acc["fn_var_num"][ui] / math.sqrt(acc["fn_var_den"][ui])
+                    stats["max_abs_z_tauleap_functional"] = max(stats.get("max_abs_z_tauleap_functional", 0.0), abs(zm), abs(zv))
+                    if abs(zm) > ZMAX or abs(zv) > ZMAX + 1.0:
+                        viol.append(dict(ctx, oracle="C07.tauleap-functional",
+                                         detail="weighted species totals (weights %s): mean z=%.1f, variance z=%.1f over %d steps: "
+                                                "firing counts are not Poisson with mean propensity x time step" % (
+                                                    "1,1,.." if ui == 0 else "1,2,3,..", zm, zv, N)))
+            stats["g"] = {"sc_r_num": acc["sc_r_num"], "sc_r_den": acc["sc_r_den"],
+                          "sc_d_num": acc["sc_d_num"], "sc_d_den": acc["sc_d_den"]}
+            for ui in range(2):
+                stats["g"]["fnm%d_num" % ui] = acc["fn_mean_num"][ui]
+                stats["g"]["fnm%d_den" % ui] = acc["fn_mean_den"][ui]
+                stats["g"]["fnv%d_num" % ui] = acc["fn_var_num"][ui]
+                stats["g"]["fnv%d_den" % ui] = acc["fn_var_den"][ui]
     return viol, stats
 
 
@@ -328,6 +398,23 @@ def global_check(total):
             out.append({"class": "violation", "oracle": "C07.pooled-waiting-time",
                         "detail": "pooled mean of dt*a0_ref over %d Gillespie steps is %.6f (z=%.1f)" % (
                             g["w_n"], g["w_sum"] / g["w_n"], z)})
+    for nm, what in (("sc_r", "reaction"), ("sc_d", "diffusion")):
+        if g.get(nm + "_den", 0) > 100:
+            z = g[nm + "_num"] / math.sqrt(g[nm + "_den"])
+            info["pooled_tauleap_%s_scale_z" % what] = z
+            if abs(z) > ZMAX:
+                out.append({"class": "violation", "oracle": "C07.pooled-tauleap-%s-scale" % what,
+                            "detail": "pooled score statistic for a common scale error of the tau-leap %s propensities: "
+                                      "z=%.1f" % (what, z)})
+    for ui in range(2):
+        for nm, what, thr in (("fnm%d" % ui, "mean", ZMAX), ("fnv%d" % ui, "variance", ZMAX + 1.0)):
+            if g.get(nm + "_den", 0) > 1000:
+                z = g[nm + "_num"] / math.sqrt(g[nm + "_den"])
+                info["pooled_tauleap_functional%d_%s_z" % (ui, what)] = z
+                if abs(z) > thr:
+                    out.append({"class": "violation", "oracle": "C07.pooled-tauleap-functional-%s" % what,
+                                "detail": "pooled %s statistic of the weighted species totals (weights #%d) over all tau-leap "
+                                          "steps: z=%.1f" % (what, ui, z)})
     if g.get("rd_den", 0) > 100:
         z = g["rd_num"] / math.sqrt(g["rd_den"])
         info["pooled_reaction_vs_diffusion_z"] = z
